@@ -85,7 +85,8 @@ def main():
     for p in props:
         pid = p["id"]
         binf = os.path.join(ROOT, "mc", "src", "bin", pid.lower() + ".rs")
-        if pid in CHECKS and os.path.exists(binf):
+        subcrate = os.path.join(ROOT, "mc", pid.lower(), "src", "main.rs")
+        if pid in CHECKS and (os.path.exists(binf) or os.path.exists(subcrate)):
             eng, tech, text, note, ref = CHECKS[pid]
             checks.append({
                 "property_id": pid,
@@ -104,7 +105,7 @@ def main():
     hooks = [l.split()[0] for l in hook_commits if "verif hooks" in l]
     m = {
         "version": 1,
-        "setup_cmd": "cd mc && CARGO_NET_OFFLINE=true cargo build --bins 2>&1 | tail -3",
+        "setup_cmd": "cd mc && CARGO_NET_OFFLINE=true cargo build --workspace --bins 2>&1 | tail -3",
         "hooks": {
             "guard": "--cfg ndarray_interp_verif",
             "enable": "rustflags = [\"--cfg\", \"ndarray_interp_verif\"] in /verif/mc/.cargo/config.toml (the harness depends on /repo by path)",
